@@ -230,6 +230,34 @@ def points_case(draw):
 
 
 @st.composite
+def scale_points_case(draw):
+    """ONE dimension large: many groups in a stack (65-300), many points in a matrix (300-2000), many rows (65-300) or many
+    columns (65-300); values from a seeded pattern so that the violation pattern is not uniform over groups / rows"""
+    dim = draw(st.sampled_from(["groups", "groups", "points", "rows", "cols"]))
+    big = draw(st.sampled_from([65, 66, 100, 128, 129, 257, 300]))
+    nr = big if dim == "rows" else draw(st.integers(2, 4))
+    nc = big if dim == "cols" else draw(st.integers(2, 4))
+    s = draw(st.integers(1, 10 ** 6))
+
+    def rnd(k, lo, hi):
+        return lo + (s * (k + 17) * 2654435761 >> 7) % (hi - lo + 1)
+    A = [[(rnd(r * nc + c, -2, 3) if (dim != "cols" or rnd(7 * r + c, 0, 9) < 2) else 0) for c in range(nc)] for r in range(nr)]
+    b = [rnd(1000 + r, -2, 4) for r in range(nr)]
+    M = [[b[r]] + A[r] for r in range(nr)]
+    if dim == "groups":
+        ng, npts = big, draw(st.integers(1, 3))
+        pts = [[[rnd(g * 31 + p * 7 + c, 0, 2) for c in range(nc)] for p in range(npts)] for g in range(ng)]
+    elif dim == "points":
+        npts = draw(st.sampled_from([300, 1000, 2000]))
+        pts = [[rnd(p * 5 + c, -1, 2) for c in range(nc)] for p in range(npts)]
+    else:
+        nd = draw(st.sampled_from([1, 2, 3]))
+        one = lambda k: [rnd(k * 13 + c, 0, 2) for c in range(nc)]
+        pts = one(1) if nd == 1 else ([one(p) for p in range(3)] if nd == 2 else [[one(g * 3 + p) for p in range(2)] for g in range(3)])
+    return {"m": M, "pts": pts, "flavour": "scale:" + dim}
+
+
+@st.composite
 def sparse_wide_case(draw):
     """wide, sparse systems the way they are written for many variables: 2-6 rows over 8-26 columns, 1-3 non-zero
     coefficients per row; range constraints as two rows on one column (x >= 1, -x >= -3) and implication chains
@@ -366,5 +394,6 @@ def derived_case(draw):
 def parts(tier):
     return [Part("derived", strategy=lambda t: derived_case(), check=check_derived, quick=(3, 500), thorough=(6, 8000)),
             Part("extreme", strategy=lambda t: extreme_case(), check=check_points, quick=(1, 400), thorough=(2, 5000)),
+            Part("scale", strategy=lambda t: scale_points_case(), check=check_points, quick=(1, 60), thorough=(2, 800)),
             Part("sparse_wide", strategy=lambda t: sparse_wide_case(), check=check_points, quick=(2, 400), thorough=(4, 5000)),
             Part("points", strategy=lambda t: points_case(), check=check_points, quick=(8, 700), thorough=(16, 20000))]
